@@ -86,6 +86,25 @@ notes={
  'C18-J':'+ every case may be preceded by a twin path that differs by one character (a blank dropped), through the same entry point, with no Config when the path has no function',
  'C19-J':'+ TestC19_LongRun: thousands of distinct config-less paths per process, remembered cases evaluated again after 70 ... 4200 further distinct paths; the replay carries the whole history',
  'C20-J':'+ Accessor values (zero and live) among the non-JSON values',
+ 'C01-K':'+ regular expressions that are a literal anchored at both ends (^a$, ^ab$, \\Aa\\z) and strings that merely contain the literal',
+ 'C02-K':'+ script qualifiers of every shape ((@.length), (@.length-1), ...) in the reduced grammar and the vocabulary',
+ 'C05-K':'+ root-less paths in C05 and a "rejected Parse" operation in its histories; a rejected Parse precedes 1 case in 6 of every check that goes through evalLibrary',
+ 'C06-K':'+ corpus paths whose && / || have one operand decided for the whole container ($-rooted, literal); also TestC09_SharedFilter',
+ 'C06-L':'+ every goroutine appends to results it was given earlier while later results (its own and the others\') are alive, and re-reads them',
+ 'C07-K':'+ rows of records (arrays directly inside arrays, each holding several objects) in the C07 documents',
+ 'C08-L':'+ the three retrievals of C08 are also written without the leading "$" and after a rejected Parse',
+ 'C10-K':'+ an operand with a nested filter followed by a function; every comparison also evaluated in accessor mode',
+ 'C11-K':'+ zero written with a minus sign (-0) among the integer spellings',
+ 'C12-K':'+ the accessors of the first call are read again after the same parsed function was called on another document',
+ 'C12-L':'+ Parse(path, configs...) with the caller changing configs[0] afterwards (SetAccessorMode / reset)',
+ 'C14-K':'+ a rejected Parse precedes 1 case in 6 (evalLibrary)',
+ 'C14-L':'+ other functions registered under the same names on the same Config object after Parse: they must never be called',
+ 'C16-K':'+ the member addressed below a filter applied to an OBJECT (then "..name" / a name), below a wildcard, and by a filter below a wildcard',
+ 'C16-L':'+ the member addressed by a parsed function whose previous call was cut short by a panicking user function (the caller recovered); also a C05 operation',
+ 'C18-K':'+ names written with every character as a \\uXXXX escape, U+FFFD as a lone surrogate escape followed by another escape, in both quote styles',
+ 'C18-L':'+ "+" sign / leading zeros on integer literals of filters; integers beyond 2^53 written as integers in the documents (and their neighbours)',
+ 'C19-L':'+ an evaluation with 1 100 ... 70 000 results right before a case of the long run (and as a C05 operation)',
+ 'C20-K':'+ the returned error is used as a value (map key, ==)',
  'C20-G':'+ defined types over float64 / string / bool and json.RawMessage among the opaque values',
 }
 rows=[]
